@@ -24,7 +24,9 @@ def is_sym_world(x):
 def _r(v):
     v = raw(v)
     if isinstance(v, np.generic):
-        return v.item()
+        v = v.item()
+        if isinstance(v, np.floating):      # np.longdouble has no Python equivalent
+            v = float(v)
     return v
 
 
@@ -51,7 +53,7 @@ def elems(x):
     if isinstance(x, Arr):
         return [(_r(e)) for e in x.elems()]
     if isinstance(x, np.ndarray):
-        return [e.item() if isinstance(e, np.generic) else e for e in x.ravel()]
+        return [_r(e) for e in x.ravel()]
     if isinstance(x, (list, tuple)):
         out = []
         for y in x:
@@ -337,3 +339,22 @@ def mod_2pi(a):
 
 
 __all__ += ["hypot", "arctan2", "cos", "mod_2pi"]
+
+
+def close(a, b, rel=1e-9, abs_=1e-12):
+    """a == b as a statement about real numbers: exact in the symbolic world; in the concrete (binary64) world equality up
+    to rounding, used by clauses whose right-hand side involves a division or a square root computed by the code."""
+    a, b = _r(a), _r(b)
+    if isinstance(a, Sym) or isinstance(b, Sym):
+        return compare("==", a, b)
+    if isinstance(a, float) and isinstance(b, float) and (math.isnan(a) or math.isnan(b)):
+        return math.isnan(a) and math.isnan(b)
+    if a == b:
+        return True
+    try:
+        return math.isclose(a, b, rel_tol=rel, abs_tol=abs_)
+    except (TypeError, OverflowError):
+        return False
+
+
+__all__ += ["close"]
